@@ -477,6 +477,9 @@ func (d *DoltSession) CommitTransaction(ctx *sql.Context, tx sql.Transaction) (e
 	defer func() {
 		if err == nil {
 			ctx.SetTransaction(nil)
+			// The transaction has ended, so a START TRANSACTION that suspended autocommit no longer applies
+			// (see the note in |commitBranchState|: the engine only does this for explicit COMMIT statements).
+			ctx.SetIgnoreAutoCommit(false)
 		}
 	}()
 
@@ -745,8 +748,11 @@ func (d *DoltSession) commitBranchState(
 	// Anything that commits a transaction needs its current transaction state cleared so that the next statement starts
 	// a new transaction. This should in principle be done by the engine, but it currently only understands explicit
 	// COMMIT statements. Any other statements that commit a transaction, including stored procedures, needs to do this
-	// themselves.
+	// themselves. The same goes for the suspension of autocommit by START TRANSACTION, which ends with the
+	// transaction: without this, the statements after e.g. CALL dolt_commit() in a session with autocommit on would
+	// silently stay uncommitted until an explicit COMMIT.
 	ctx.SetTransaction(nil)
+	ctx.SetIgnoreAutoCommit(false)
 	return newCommit, nil
 }
 
